@@ -102,7 +102,7 @@ Proof.
        if length_ok then Ok (length e0, Z.to_nat (Z.of_nat (length body)))
        else match find_eol_endstream data with
             | None => Err Malformed
-            | Some p => Ok (length e0, trim_len (firstn p data))
+            | Some p => Ok (length e0, trim_at data p)
             end)) by (destruct H0; reflexivity).
     rewrite Hk. cbv zeta. rewrite Hlen, Nat2Z.id, He. reflexivity. }
   unfold stream_obj. fold data. rewrite Hext.
